@@ -342,6 +342,12 @@ func init() {
 		chk := &Check{ID: "C08",
 			Rule: "case enumeration: for each of the 7 built-in event types and 2 custom ones, every observer specification (observed set x With x Without|exclusive) over {P,Q,R1} alone, every ordered pair (and in thorough: triples) of simultaneously registered specifications over a smaller universe, with register / unregister-first / re-register / reverse-order plans and observers that unregister themselves or a neighbour inside the callback; each case runs all 56 (old set -> new set) single-entity transitions over {P,Q,R1} through MapN/Map/ExchangeN/ID-based paths, Set, relation target changes, Copy, entity removal, custom Emit and every batch form; per operation the multiset of (observer, entity) callbacks must equal the documented predicate evaluated per observer; states = cases, non-trivial = cases in which at least one callback ran",
 		}
+		// 70 simultaneously registered observers (more than 64), mass unregistration
+		sd := 3
+		if t == Thorough {
+			sd = 4
+		}
+		chk.Scenarios = []*engine.Scenario{scaleObservers(sd)}
 		chk.SpecialSharded = true
 		chk.Special = func(tier Tier, rep *engine.Report) error {
 			budget := 150 * time.Second
@@ -470,6 +476,7 @@ func init() {
 			}
 			return 1
 		}
+		addThreshold(chk, "event-types", func() (int, int, []*drv.Violation) { return runCases(eventTypesCase) }, "all 249 custom event types of an EventRegistry are distinct from each other and from the built-in ones, can be emitted, and observers of the first, last and word-boundary ones fire exactly once")
 		return chk
 	}
 	_ = api.RelByIdx
